@@ -182,10 +182,10 @@ theorem save_spec (r : Ring) (h : r.WF) :
 theorem xread_spec (r : Ring) (h : r.WF) (part k : Nat) :
     ∃ r' outs, r.xread part k = .ok (r', outs) ∧ r'.WF ∧ r'.store.length = r.store.length ∧
       r'.content ++ outs.reverse.flatten = r.content ∧ (∀ o ∈ outs, o.length = part) ∧
-      outs.length ≤ k ∧ (k * part ≤ r.len → outs.length = k) := by
+      outs.length ≤ k ∧ (k * part ≤ r.len → outs.length = k) ∧ (outs.length < k → r'.len < part) := by
   induction k generalizing r with
   | zero =>
-    refine ⟨r, [], rfl, h, rfl, by simp, by simp, by simp, by simp⟩
+    refine ⟨r, [], rfl, h, rfl, by simp, by simp, by simp, by simp, by simp⟩
   | succ k ih =>
     have h1 := h.1
     have h2 := h.2
@@ -200,11 +200,11 @@ theorem xread_spec (r : Ring) (h : r.WF) (part k : Nat) :
       rw [hq']
       simp only []
       have hw1 : ({ r with len := r.len - part } : Ring).WF := by unfold WF; simp only []; omega
-      obtain ⟨r2, outs, he, hw2, hs2, hc2, hl2, hk2, hf2⟩ := ih { r with len := r.len - part } hw1
+      obtain ⟨r2, outs, he, hw2, hs2, hc2, hl2, hk2, hf2, hst2⟩ := ih { r with len := r.len - part } hw1
       rw [he]
       simp only []
       have hct := content_take r (r.len - part) (by omega)
-      refine ⟨r2, _, rfl, hw2, hs2, ?_, ?_, ?_, ?_⟩
+      refine ⟨r2, _, rfl, hw2, hs2, ?_, ?_, ?_, ?_, ?_⟩
       · rw [List.reverse_cons, List.flatten_append, ← List.append_assoc, hc2, hct]
         simp
       · intro o ho
@@ -217,10 +217,13 @@ theorem xread_spec (r : Ring) (h : r.WF) (part k : Nat) :
         rw [Nat.succ_mul] at hkp
         have := hf2 (by simp only []; omega)
         omega
+      · intro hlt
+        simp only [List.length_cons] at hlt
+        exact hst2 (by omega)
     · have hq := (qpop_spec r h part true).2 (by omega)
       rw [hq]
       simp only []
-      refine ⟨r, [], rfl, h, rfl, by simp, by simp, by simp, ?_⟩
+      refine ⟨r, [], rfl, h, rfl, by simp, by simp, by simp, ?_, fun _ => by omega⟩
       intro hkp
       rw [Nat.succ_mul] at hkp
       omega
